@@ -208,7 +208,7 @@ func (c *Ctx) frameMaxObs() []core.Ob {
 
 func init() {
 	Props["C03"] = PropDef{
-		Explanation: "R-TLG (interval/taint dataflow on go/ssa) over packages nbt and nbt/dynbt: every integer decoded from the input that reaches make, reflect.MakeSlice, a slice bound, an index, io.CopyN, a divisor or a loop bound is proven to be in the range that use requires on every path (loop bounds must be non-negative: a negative declared length has to be an error). Not decided: prefix-not-success in general, implicit panics outside these sink classes, the SNBT text scanner.",
+		Explanation: "R-TLG interval + taint forward dataflow on go/ssa with branch refinement, symbolic cap/len bounds and interprocedural summaries; R-PANIC triage; T-DISPATCH; R-PROGRESS; R-GUARD sign-check-before-success and string indexes; R-RAWREAD. Decided: Every integer decoded from the input in nbt and nbt/dynbt is proven in range before make / MakeSlice / slice bound / index / CopyN / divisor / loop bound / fixed-width accessor; sign tests lie on every path to a success exit; element loops make progress; reads are full reads and a byte adapter never invents a byte; explicit panics are triaged. A structural necessary condition of totality, not a proof of it.",
 		Run: func(c *Ctx) []core.Ob {
 			in := pkgPred("nbt", "nbt/dynbt")
 			obs := c.TLGObs(in, in, true)
@@ -229,7 +229,7 @@ func init() {
 		},
 	}
 	Props["C08"] = PropDef{
-		Explanation: "R-TLG over every decoder in the module: each peer-derived length/count/index is range-checked before make, slicing, indexing, reflect.MakeSlice/Slice/SetLen, io.CopyN, division and shifts. Armed for net/packet, level, chat, registry, server/command (the decoders the property enumerates); bot/*, chat/sign, yggdrasil are informational. R-PANIC: every explicit panic reachable (VTA call graph) from a decoder root is triaged in rules/panic_sites.json (an untriaged one fails), calls through exported func-typed fields are nil-guarded, calls of NewBitStorage on network decode paths establish its length precondition. Not decided: implicit panics outside these classes, type assertions, non-termination other than count-bounded loops.",
+		Explanation: "R-TLG over every decoder root of the module; R-PANIC reachability triage; nil-guard of func-typed fields; guarded NewBitStorage calls; R-GUARD string indexes; T-PALCFG width bounds. Decided: Every peer-derived length/count/index reaching a crash sink is proven in range on all paths in the decoders of the enumerated packages; explicit panics reachable from decoder roots are triaged; palette widths from the wire never exceed a machine word. Implicit panics outside these classes are not decided.",
 		Run: func(c *Ctx) []core.Ob {
 			armed := pkgPred("net/packet", "level", "chat", "registry", "server/command", "net", "nbt", "nbt/dynbt")
 			obs := c.TLGObs(yes, armed, false)
@@ -245,7 +245,7 @@ func init() {
 		},
 	}
 	Props["C07"] = PropDef{
-		Explanation: "R-TLG on the frame reader (functions of net/packet reachable from (*Packet).UnPack): declared lengths are proven non-negative before io.CopyN / allocation / re-slicing, and every payload allocation is proven <= MaxDataLength (R-TLG-MAX). Not decided: equality of id/payload after a round trip, the 5-byte length patch arithmetic, zlib conformance.",
+		Explanation: "R-TLG + R-TLG-MAX on the frame reader; R-POOL; R-ORDER unpack-success-assigns and threshold plumbing; T-CONNINIT; T-VARLEN; R-RAWREAD; R-ERRFLOW; R-NOBUF. Decided: Every declared length is sign-checked and bounded by the protocol maximum before CopyN / allocation / re-slice; a successful UnPack has stored ID and Data on every path; pooled buffers do not escape; every Conn starts uncompressed on the bare socket; frame length fields use the LEB128 length. Round-trip equality and zlib conformance are not decided.",
 		Run: func(c *Ctx) []core.Ob {
 			in := c.reachPred([]string{"net/packet.(*Packet).UnPack", "net/packet.(*Packet).Pack"}, "net/packet")
 			obs := c.TLGObs(in, in, false)
@@ -255,7 +255,9 @@ func init() {
 			obs = append(obs, c.UnpackAssigns()...)
 			obs = append(obs, c.ConnInit()...)
 			obs = append(obs, c.VarLen()...)
-			obs = append(obs, filterObs(c.RawRead(), func(o core.Ob) bool { return strings.HasPrefix(o.Key, "net/packet.") || strings.HasPrefix(o.Key, "net.") })...)
+			obs = append(obs, filterObs(c.RawRead(), func(o core.Ob) bool {
+				return strings.HasPrefix(o.Key, "net/packet.") || strings.HasPrefix(o.Key, "net.")
+			})...)
 			obs = append(obs, c.ErrFlow(in, in)...)
 			obs = append(obs, filterObs(c.NoReadAhead(), func(o core.Ob) bool { return strings.Contains(o.Key, "packet") || o.Key == "scope" })...)
 			obs = append(obs, c.rootObs("R-TLG", "net/packet.(*Packet).UnPack", "net/packet.(*Packet).Pack")...)
